@@ -87,6 +87,26 @@ def in_domain(js, method, cfg=None):
         if e[0] in ('S', 'T', 'SC'):
             started = True
     rawrun = ''
+    incd = False
+    cdrun = ''
+    for e in js:
+        if e[0] == 'SC':
+            if incd:
+                return 'cdata-unbalanced'
+            incd = True
+            cdrun = ''
+        elif e[0] == 'EC':
+            if not incd:
+                return 'cdata-unbalanced'
+            incd = False
+        elif incd and e[0] != 'T':
+            return 'cdata-unbalanced'
+        elif incd:
+            cdrun += e[1]
+            if ']]>' in cdrun:
+                return 'cdata-end-in-text'
+    if incd:
+        return 'cdata-unbalanced'
     for i, e in enumerate(js):
         k = e[0]
         if k != 'E' and i > 0 and js[i - 1][0] == 'S' and js[i - 1][1][1] in G.VOID:
@@ -567,7 +587,7 @@ def fixed_cases():
 
 def run(ctx):
     nsh = 16
-    per = ctx.n(250, 6000)
+    per = ctx.n(1000, 9000)
     res = Result()
     for c in fixed_cases():
         res.evaluations += 1
@@ -615,4 +635,12 @@ def search(ctx, res, broken):
 
 
 def replay(ctx, case):
+    if case.get('method') not in ('html', 'xhtml') or not outlib.valid_config(case) or \
+            not G.valid_stream(case.get('stream')) or not G.well_nested(case['stream']):
+        return None
+    if in_domain(case['stream'], case['method'], case):
+        if not case.get('outside_domain'):      # listed findings carry their excluded class on purpose
+            return None
+    if case.get('strip') and has_xml_space(case['stream']):
+        return None
     return oracle_case(case)
